@@ -486,3 +486,191 @@ def replace_at(d, path, new):
         lst[p[1]] = replace_at(lst[p[1]], path[1:], new)
         out[p[0]] = lst
     return out
+
+
+# ------------------------------------------------------------------ types (as the library prints Content::type)
+
+DATASHAPE_KEYWORDS = ("var", "option", "union", "struct", "tuple", "categorical", "unknown", "string", "bytes", "char",
+                      "byte", "bool", "int8", "int16", "int32", "int64", "uint8", "uint16", "uint32", "uint64",
+                      "float16", "float32", "float64", "float128", "complex64", "complex128", "complex256",
+                      "datetime64", "timedelta64", "parameters", "type")
+
+
+def typeof(d):
+    """structured type: (kind, ..., params) following the Form::type rules of each node class"""
+    c = d["c"]
+    p = dict(d.get("params") or {})
+    if c == "NumpyArray":
+        t = ("prim", d["dtype"], p)
+        for s in reversed(d["shape"][1:]):
+            t = ("regular", t, s, {})
+        return t
+    if c == "EmptyArray":
+        return ("unknown", p)
+    if c == "RegularArray":
+        return ("regular", typeof(d["content"]), d["size"], p)
+    if c in ("ListArray", "ListOffsetArray"):
+        return ("list", typeof(d["content"]), p)
+    if c == "IndexedArray":
+        t = typeof(d["content"])
+        tp = dict(t[-1])
+        if not tp and p:
+            tp = dict(p)
+            if p.get("__array__") == "\"categorical\"":
+                tp.pop("__array__", None)            # setparameter(key, "null") removes the parameter
+                tp["__categorical__"] = "true"
+        elif tp and p:
+            for k, v in p.items():
+                if k != "__array__":
+                    tp[k] = v
+            if p.get("__array__") == "\"categorical\"":
+                tp["__categorical__"] = "true"
+        return t[:-1] + (tp,)
+    if c in OPTION:
+        tp = dict(p)
+        if c == "IndexedOptionArray" and p.get("__array__") == "\"categorical\"":
+            tp.pop("__array__", None)
+            tp["__categorical__"] = "true"
+        return ("option", typeof(d["content"]), tp)
+    if c == "RecordArray":
+        return ("record", [typeof(x) for x in d["contents"]], d["keys"], p)
+    if c == "UnionArray":
+        return ("union", [typeof(x) for x in d["contents"]], p)
+    raise ValueError(c)
+
+
+def _params_empty(p):
+    return not p or (len(p) == 1 and p.get("__categorical__") == "true")
+
+
+def _string_params(p):
+    return "parameters={" + ", ".join("%s: %s" % (json.dumps(k, ensure_ascii=False), p[k])
+                                       for k in sorted(p) if k != "__categorical__") + "}"
+
+
+def _wrapcat(p, s):
+    return "categorical[type=" + s + "]" if p.get("__categorical__") == "true" else s
+
+
+def _isname(text):
+    # util::parameter_isname: a JSON string that is an identifier
+    try:
+        s = json.loads(text)
+    except ValueError:
+        return None
+    if not isinstance(s, str) or not s:
+        return None
+    if not (s[0].isalpha() or s[0] == "_"):
+        return None
+    if not all(ch.isalnum() or ch == "_" for ch in s):
+        return None
+    return s
+
+
+def render(t):
+    k = t[0]
+    p = t[-1]
+    if k == "prim":
+        s = t[1] if _params_empty(p) else "%s[%s]" % (t[1], _string_params(p))
+        return _wrapcat(p, s)
+    if k == "unknown":
+        return _wrapcat(p, "unknown" if _params_empty(p) else "unknown[%s]" % _string_params(p))
+    if k == "list":
+        inner = render(t[1])
+        return _wrapcat(p, "var * " + inner if _params_empty(p) else "[var * %s, %s]" % (inner, _string_params(p)))
+    if k == "regular":
+        inner = render(t[1])
+        return _wrapcat(p, "%d * %s" % (t[2], inner) if _params_empty(p)
+                        else "[%d * %s, %s]" % (t[2], inner, _string_params(p)))
+    if k == "option":
+        inner = render(t[1])
+        if _params_empty(p):
+            s = "option[%s]" % inner if t[1][0] in ("list", "regular") else "?" + inner
+        else:
+            s = "option[%s, %s]" % (inner, _string_params(p))
+        return _wrapcat(p, s)
+    if k == "union":
+        s = "union[" + ", ".join(render(x) for x in t[1])
+        if not _params_empty(p):
+            s += ", " + _string_params(p)
+        return _wrapcat(p, s + "]")
+    if k == "record":
+        types, keys = t[1], t[2]
+        if len(p) == 1 and "__record__" in p:
+            name = _isname(p["__record__"])
+            if name is not None and name not in DATASHAPE_KEYWORDS:
+                parts = []
+                for j, x in enumerate(types):
+                    parts.append((json.dumps(keys[j], ensure_ascii=False) + ": " if keys is not None else "") + render(x))
+                return _wrapcat(p, name + "[" + ", ".join(parts) + "]")
+        if _params_empty(p):
+            if keys is not None:
+                s = "{" + ", ".join("%s: %s" % (json.dumps(kk, ensure_ascii=False), render(x))
+                                    for kk, x in zip(keys, types)) + "}"
+            else:
+                s = "(" + ", ".join(render(x) for x in types) + ")"
+        else:
+            if keys is not None:
+                s = "struct[[" + ", ".join(json.dumps(kk, ensure_ascii=False) for kk in keys) + "], [" + \
+                    ", ".join(render(x) for x in types) + "], " + _string_params(p) + "]"
+            else:
+                s = "tuple[[" + ", ".join(render(x) for x in types) + "], " + _string_params(p) + "]"
+        return _wrapcat(p, s)
+    raise ValueError(k)
+
+
+def typestr(d):
+    return render(typeof(d))
+
+
+def purelist_depth(t):
+    k = t[0]
+    if k in ("prim", "unknown"):
+        return 1
+    if k in ("list", "regular"):
+        if k == "list" and t[-1].get("__array__") in ("\"string\"", "\"bytestring\""):
+            return 1
+        if k == "regular" and t[-1].get("__array__") in ("\"string\"", "\"bytestring\""):
+            return 1
+        return 1 + purelist_depth(t[1])
+    if k == "option":
+        return purelist_depth(t[1])
+    if k == "record":
+        return 1
+    if k == "union":
+        ds = set(purelist_depth(x) for x in t[1])
+        return ds.pop() if len(ds) == 1 else -1
+    raise ValueError(k)
+
+
+def minmax_depth(t):
+    k = t[0]
+    if k in ("prim", "unknown"):
+        return (1, 1)
+    if k in ("list", "regular"):
+        if t[-1].get("__array__") in ("\"string\"", "\"bytestring\""):
+            return (1, 1)
+        a, b = minmax_depth(t[1])
+        return (a + 1, b + 1)
+    if k == "option":
+        return minmax_depth(t[1])
+    if k in ("record", "union"):
+        if not t[1]:
+            return (0, 0)
+        ds = [minmax_depth(x) for x in t[1]]
+        return (min(x[0] for x in ds), max(x[1] for x in ds))
+    raise ValueError(k)
+
+
+def is_regular(t):
+    """purelist_isregular: no var-length list before the first non-list"""
+    k = t[0]
+    if k == "list":
+        return False
+    if k == "regular":
+        return is_regular(t[1])
+    if k == "option":
+        return is_regular(t[1])
+    if k == "union":
+        return all(is_regular(x) for x in t[1])
+    return True
